@@ -237,6 +237,8 @@ impl WorkerPool {
         matcher: Option<&SignatureMatcher>,
         filter: Option<&FilterConfig>,
     ) -> Result<HttpAnalysisResult, HuginnNetHttpError> {
+        #[cfg(feature = "verif-hooks")]
+        crate::verif_hooks::sched_point("worker_packet", packet);
         if let Some(filter_cfg) = filter {
             if !raw_filter::apply(packet, filter_cfg) {
                 debug!("Filtered out packet before parsing");
@@ -269,6 +271,8 @@ impl WorkerPool {
 
         self.dispatched_count.fetch_add(1, Ordering::Relaxed);
 
+        #[cfg(feature = "verif-hooks")]
+        crate::verif_hooks::sched_point("dispatch_pre_send", &packet);
         if let Some(sender) = self.packet_senders.get(worker_id) {
             match sender.try_send(packet) {
                 Ok(()) => DispatchResult::Queued,
